@@ -69,6 +69,9 @@ pub(crate) struct FrequencyCounter {
 impl FrequencyCounter {
     pub(crate) fn new(counters: TotalCounters) -> FrequencyCounter {
         let total_counters = Self::next_power_2(counters);
+        // A row packs two 4 bit counters in each byte, so it needs at least two counters (one byte):
+        // with a single counter the rows would be empty and every increment/estimate would index out of bounds.
+        let total_counters = if total_counters < 2 { 2 } else { total_counters };
         info!("Initializing FrequencyCounter with total counters {}", counters);
         FrequencyCounter {
             matrix: Self::matrix(total_counters),
